@@ -4,6 +4,42 @@ open Model
 open Glue
 open Dispatch2
 
+(* the tree dump of go/cmd/gmh/dump.go with the node kinds of the GFM extensions *)
+let print_kind_x (k : kind) : string * string =
+  match k with
+  | KTable -> "Table", "-" | KTableHeader -> "TableHeader", "-" | KTableRow -> "TableRow", "-"
+  | KTableCell a -> "TableCell", align_digit a
+  | KStrikethrough -> "Strikethrough", "-"
+  | KTaskCheckBox c -> "TaskCheckBox", s_of_bool c
+  | _ -> print_kind k
+let print_tree_x (t : tree) : string =
+  let b = Buffer.create 256 in
+  let first = ref true in
+  let rec go depth (Node (k, lines, _, kids)) =
+    if not !first then Buffer.add_char b '~';
+    first := false;
+    let (name, f) = print_kind_x k in
+    let is_inline = (match k with
+      | KText _ | KString _ | KCodeSpan | KEmphasis _ | KLink _ | KImage _ | KAutoLink _ | KRawHTML _
+      | KStrikethrough | KTaskCheckBox _ -> true
+      | _ -> false) in
+    Buffer.add_string b (Printf.sprintf "%d|%s|%s|%s|N" depth name f
+      (if is_inline || lines = [] then "-" else String.concat "," (List.map seg_s lines)));
+    List.iter (go (depth + 1)) kids in
+  go 0 t; Buffer.contents b
+
+(* the installed extensions: s strikethrough, t task list, T table, l linkify ("-": none) *)
+let parse_xcfg (s : string) : xcfg =
+  { x_strike = String.contains s 's'; x_task = String.contains s 't';
+    x_table = String.contains s 'T'; x_linkify = String.contains s 'l' }
+
+let tree_res = function Ok t -> print_tree_x t | Panic -> "PANIC" | OutOfFuel -> "FUEL"
+let bytes_res = function Ok o -> hex_of_bytes o | Panic -> "PANIC" | OutOfFuel -> "FUEL"
+
 let eval (fn : string) (args : string list) : string =
   match fn, args with
+  | "ParseTreeX", [x; src] -> tree_res (parseTreeX (parse_xcfg x) (bytes_of_hex src))
+  | "ConvertX", [x; cfg; src] -> bytes_res (convertModelX (parse_xcfg x) (parse_rcfg cfg) (bytes_of_hex src))
+  | "ParseTreeGfm", [src] -> tree_res (parseTreeGfm (bytes_of_hex src))
+  | "ConvertGfm", [cfg; src] -> bytes_res (convertModelGfm (parse_rcfg cfg) (bytes_of_hex src))
   | _ -> failwith ("unknown case kind " ^ fn)
